@@ -273,7 +273,7 @@ func indexOfMessage(msg string) int {
 var (
 	// kvRegex is the regular expression used to match quoted and unquoted key
 	// value pairs.
-	kvRegex = regexp.MustCompile(`([a-z0-9_-]+)=((?:[^"'\s]+)|'(?:\\'|[^'])*'|"(?:\\"|[^"])*")`)
+	kvRegex = regexp.MustCompile(`([a-z0-9_-]+)=((?:[^"'\s]+)|'(?:\\'|"[^"']*'[^"]*"|[^'])*'|"(?:\\"|[^"])*")`)
 
 	// avcMessageRegex matches the beginning of SELinux AVC messages to parse
 	// the seresult and seperms parameters.
